@@ -757,6 +757,19 @@ impl<'a> GeneratorState<'a> {
                 | Operation::Xor(true)
                 | Operation::Mul(true)
                 | Operation::Div(true) => {
+                    if high_byte {
+                        if let Expr::Identifier(_, sub) = &**lhs {
+                            if let Expr::Nothing = **sub {
+                                let left = self.generate_expr(lhs, pos, true, true)?;
+                                if let ExprType::Absolute(_, true, _) = left {
+                                    // High byte pass of an enclosing 16 bits expression: this 8 bits
+                                    // variable has been updated by the low byte pass, and the high
+                                    // byte of the expression is the high byte of its value
+                                    return Ok(left);
+                                }
+                            }
+                        }
+                    }
                     let (left, right) = self.generate_operands(lhs, rhs, pos, high_byte, high_byte)?;
                     let newright = self.generate_arithm(&left, op, &right, pos, high_byte)?;
                     let ret = self.generate_assign(&left, &newright, pos, high_byte);
